@@ -577,3 +577,7 @@ for _p in ("C03", "C06", "C09"):
         "V-lexint: the scanner is (text, position) with its byte index = byte_off(text, position) (proved step by step for the real scanner by the Kani units "
         "c18_next_char_step / c03_scanner_range_in_bounds); str::parse::<i64>, char::is_ascii_digit, str::replace are assumed std contracts; `panic!` is a call "
         "with precondition false"]
+PROPS["C18"]._v = PROPS["C18"]._v + [V_MAIN]         # render_parse_error: position of a syntax error
+PROPS["C18"].assumptions = PROPS["C18"].assumptions + [
+    "V-main/render_parse_error: lalrpop_util::ParseError is declared with the public shape of the dependency pinned in Cargo.lock (assumed); the token spans the generated "
+    "parser attaches (`@L` in parser.lalrpop) are outside every contract"]
